@@ -22,10 +22,11 @@ SRC_ROOT = os.environ.get("FVERIF_SRC", "/repo/src")
 class InterpRaise(Exception):
     """an exception raised by interpreted code"""
 
-    def __init__(self, exc, where=None):
+    def __init__(self, exc, where=None, origin="interp"):
         Exception.__init__(self, "%s: %s" % (type(exc).__name__, exc))
         self.exc = exc
         self.where = where
+        self.origin = origin  # 'raise' (explicit raise statement) | 'interp' | 'native' (inside a summary)
 
 
 class _Return(Exception):
@@ -554,8 +555,12 @@ class Interp:
             raise Undecided("vars()")
 
         b = {
-            "range": _range, "len": _len, "zip": zip, "enumerate": enumerate, "tuple": lambda x=(): tuple(it.iterate(x)),
-            "list": lambda x=(): list(it.iterate(x)), "dict": dict, "set": set, "frozenset": frozenset,
+            "range": _range, "len": _len, "zip": zip, "enumerate": enumerate,
+            "tuple": TypeMarker("tuple", lambda x=(): tuple(it.iterate(x)), lambda x: isinstance(x, tuple)),
+            "list": TypeMarker("list", lambda x=(): list(it.iterate(x)), lambda x: isinstance(x, list)),
+            "dict": TypeMarker("dict", dict, lambda x: isinstance(x, dict)),
+            "set": TypeMarker("set", lambda x=(): set(it.iterate(x)), lambda x: isinstance(x, set)),
+            "frozenset": frozenset,
             "int": T_INT, "float": T_FLOAT, "bool": T_BOOL, "str": T_STR, "object": T_OBJECT,
             "isinstance": _isinstance, "issubclass": _issubclass, "hasattr": _hasattr, "getattr": _getattr,
             "setattr": _setattr, "type": _type, "sum": _sum, "abs": _abs, "print": _print, "callable": _callable,
@@ -734,7 +739,7 @@ class Interp:
                 raise
             except Exception as e:  # native failure inside a summary: an interpreted-program error
                 if isinstance(e, tuple(_EXC.values())) and not isinstance(e, AssertionError):
-                    raise InterpRaise(e, self.where())
+                    raise InterpRaise(e, self.where(), origin="native")
                 raise
         raise self.undecided("call of non-callable %r" % (fn,))
 
@@ -1003,7 +1008,7 @@ class Interp:
             e.instance = v
             v = e
         self.events.append(("raise", type(v).__name__, str(v), self.where()))
-        raise InterpRaise(v, self.where())
+        raise InterpRaise(v, self.where(), origin="raise")
 
     def s_Assert(self, st, env, module):
         if not truth(self.eval(st.test, env)):
